@@ -243,6 +243,52 @@ def cell_table_route():
     return ("both permeate conditions -> DiffusionCurveSet.load(csv with fluxes)", build, False)
 
 
+def cell_membrane_folder():
+    """the same contradictory table, reached through Membrane.load(folder): a folder with valid ideal experiments and one
+    curve table that states both permeate conditions must not load silently"""
+    _, build_table, _ = cell_table_route()
+
+    def build(rng):
+        import csv
+        import shutil
+        import tempfile
+        from pathlib import Path
+
+        from pyvaporation.membrane import Membrane
+
+        name = rng.choice(gen.BUILTIN_MIXTURES)
+        t = rng.uniform(283, 373)
+        tp, pp = rng.uniform(150, t - 1), rng.choice([0.0, rng.uniform(0, 5)])
+        rows = [(rng.uniform(0.05, 0.95), gen.loguniform(rng, 1e-3, 1), gen.loguniform(rng, 1e-3, 1)) for _ in range(rng.randint(1, 4))]
+        with_experiments = rng.random() < 0.7
+
+        def load(both):
+            d = tempfile.mkdtemp(prefix="pvmon_c19_")
+            try:
+                folder = Path(d) / "M"
+                (folder / "diffusion_curve_sets").mkdir(parents=True)
+                if with_experiments:
+                    with open(folder / "ideal_experiments.csv", "w", newline="") as fh:
+                        wr = csv.writer(fh)
+                        wr.writerow(["name", "temperature", "component", "activation_energy", "permeance", "units", "comment"])
+                        wr.writerow(["w", "323.15", "H2O", "19944", "0.036091", "kg/(m2*h*kPa)", "c"])
+                        wr.writerow(["e", "323.15", "EtOH", "110806", "0.0000282", "kg/(m2*h*kPa)", "c"])
+                with open(folder / "diffusion_curve_sets" / "set.csv", "w", newline="") as fh:
+                    wr = csv.writer(fh)
+                    wr.writerow(["curve_id", "membrane_name", "mixture", "feed_temperature", "permeate_temperature", "permeate_pressure", "composition",
+                                 "composition_type", "partial_flux_1", "partial_flux_2", "permeance_1", "permeance_2", "units", "comment"])
+                    for w, j1, j2 in rows:
+                        wr.writerow(["c1", "M", name, repr(t), repr(tp), repr(pp) if both else "", repr(w), "weight", repr(j1), repr(j2), "", "", "", "x"])
+                m = Membrane.load(folder)
+                return m, None if m.diffusion_curve_sets is None else len(m.diffusion_curve_sets)
+            finally:
+                shutil.rmtree(d, ignore_errors=True)
+
+        return (lambda: load(True)), (lambda: load(False)), {"mixture": name, "T": t, "Tp": tp, "pp": pp, "points": len(rows), "ideal_experiments_file": with_experiments}
+
+    return ("both permeate conditions -> Membrane.load(folder holding that table)", build, False)
+
+
 ENTRIES = ["get_partial_fluxes_from_permeate_composition", "calculate_partial_fluxes", "calculate_permeate_composition", "calculate_separation_factor",
            "ideal_diffusion_curve", "non_ideal_diffusion_curve", "ideal_isothermal_process", "ideal_non_isothermal_process",
            "non_ideal_isothermal_process", "non_ideal_non_isothermal_process", "get_estimated_pure_component_flux", "DiffusionCurve(fluxes)"]
@@ -253,6 +299,7 @@ for _e in ENTRIES:
             continue  # no activity-model argument
         CELLS.append(cell_both(_e, _m))
 CELLS.append(cell_table_route())
+CELLS.append(cell_membrane_folder())
 CELLS.append(cell_no_parameters())
 for _w in ("nrtl", "uniquac", "const1", "const2"):
     for _v in ("activity coefficients", "partial pressures", "flux solver", "permeate-composition helper", "separation-factor helper", "ideal curve",
